@@ -18,7 +18,14 @@ func zzC04Addr(tag string) common.Address {
 
 // zzC04Len gives field number i its length under length pattern pat: the patterns 0..L rotate the lengths
 // 0..L over the fields, so every field takes every length and neighbouring fields always differ in length.
-func zzC04Len(pat, i, L int) int { return (pat + i) % (L + 1) }
+// A negative pattern gives every field the full length L (used for map keys in the map-order harnesses, so
+// that the order of two keys is decided by their symbolic content).
+func zzC04Len(pat, i, L int) int {
+	if pat < 0 {
+		return L
+	}
+	return (pat + i) % (L + 1)
+}
 
 // zzC04Enc encodes with a fresh sink.
 func zzC04Enc(ser func(*common.ZeroCopySink)) []byte {
@@ -55,6 +62,11 @@ func zzC04NoPanic(ds []zzC04Decoder) {
 	}
 	d := ds[i]
 	buf := zzsym.BytesUpTo("buf", zzsym.Param("B_"+d.name))
+	if first := zzsym.Param("FIRST"); first >= 0 {
+		// input class "buffers whose first byte is FIRST" (e.g. 0xFF: a 9-byte count prefix), used where the
+		// fully arbitrary buffer of that size has too many paths
+		zzsym.Assume(len(buf) >= 1 && buf[0] == byte(first))
+	}
 	src := common.NewZeroCopySource(buf)
 	err := d.dec(src)
 	zzsym.Assert(src.Pos() <= uint64(len(buf)), "the decoder never reads past the buffer")
